@@ -876,7 +876,12 @@ func runScenario(sc *scenario) (word []uint64, final bool, fails []failure, maxC
 		log.mu.Lock()
 		atClose = append([]uint64{}, log.word...)
 		log.mu.Unlock()
-		if gs := serverGoroutines(); len(gs) > 0 {
+		// a goroutine that has just called wg.Done() in its deferred exit may still be on its way out
+		gs := serverGoroutines()
+		for lim := time.Now().Add(100 * time.Millisecond); len(gs) > 0 && time.Now().Before(lim); gs = serverGoroutines() {
+			time.Sleep(2 * time.Millisecond)
+		}
+		if len(gs) > 0 {
 			add("goroutine-after-server-close", "%d server goroutine(s) still running when Server.Close returned, e.g. %s", len(gs), firstFrames(gs[0], 3))
 		}
 		if nc, err := net.DialTimeout("tcp", "127.0.0.1:"+strconv.Itoa(port), 300*time.Millisecond); err == nil {
